@@ -119,7 +119,7 @@ CHECKS.update({
              "move) — by one invariant of the breakpoint loop: f', f'' ARE the derivatives of the model on the current segment (bilinear algebra through a "
              "list <-> Fin n bridge to Mathlib), the path is straight up to the next breakpoint, phi decreased strictly so far. Hypotheses (MinCtx, "
              "witnessed by a concrete instance; minCtx_nopairs discharges them for an empty memory and theta > 0, middle_symm gives the symmetry of M from that of the matrix it inverts; the share of explored inputs on which the hypotheses hold is reported in the evidence): feasible x, exact product with a "
-             "symmetric middle matrix, B positive definite, the Fortran floor on f'' inactive. The Float "
+             "symmetric middle matrix, B positive definite, the Fortran floor on f'' inactive; middle_product_exact / gcp_first_local_min_solved (Props/C09Solve) discharge the exact-product hypothesis: the model's Gauss-Jordan elimination is proved to return the solution of the system, and a matrix with a left inverse (Mm M^-1 = 1) has no vanishing pivot. The Float "
              "model is compared with cauchy.py on a structural enumeration of activity patterns (n <= 4: 36 per-coordinate combos) and random inputs, "
              "and both with a brute-force oracle (dense model, segment by segment, decision margin).",
         note=KERNEL_NOTE, technique="Lean 4 proof (loop invariant of the breakpoint search: derivative bookkeeping by Mathlib bilinear algebra, piecewise-linear path, strict decrease; merge-sort order, box invariants) + model/implementation differential on enumerated activity patterns + brute-force first-local-minimiser oracle",
@@ -127,7 +127,7 @@ CHECKS.update({
     "C09": dict(
         text="Theorems over Model/Subspace.lean: none_free, xbar_in_box and active_fixed (any arithmetic), alpha_star_feasible (ordered field: every step "
              "in [0, alpha*] keeps the point in the box, alpha* <= 1), smw_direction (Mathlib matrices, any field: the direction computed through the small "
-             "2m x 2m system solves the reduced Newton system (theta I - W M W^T) d = -r, under M M^-1 = 1); Props/C09Model (ordered field): subspace_no_increase (a Newton step on the free variables truncated by 0 <= alpha <= 1 does not increase the model), descent_of_decrease, direction_descent, and code_direction_descent: for the direction the code computes (small system, selection matrix of the free set: newton_of_reduced, reduced_bmat) the search direction after a Cauchy step with strict model decrease satisfies g.d < 0; masked_smw (the full-dimension masked form the source computes) and, about the executable model subspaceMin itself (Props/C09Run, via a list <-> Fin n bridge): subspace_newton_point (x_bar = x_cp + alpha u exactly, 0 <= alpha <= 1, in the box, u zero on the variables on a bound and Newton on the free ones), subspace_model_no_increase, subspace_direction_descent — under SubCtx (exact middle-matrix product and small solve, c = W^T(x_cp - x) as C08 proves), witnessed by a concrete instance. Numerical equality with the dense Newton solve, "
+             "2m x 2m system solves the reduced Newton system (theta I - W M W^T) d = -r, under M M^-1 = 1); Props/C09Model (ordered field): subspace_no_increase (a Newton step on the free variables truncated by 0 <= alpha <= 1 does not increase the model), descent_of_decrease, direction_descent, and code_direction_descent: for the direction the code computes (small system, selection matrix of the free set: newton_of_reduced, reduced_bmat) the search direction after a Cauchy step with strict model decrease satisfies g.d < 0; masked_smw (the full-dimension masked form the source computes) and, about the executable model subspaceMin itself (Props/C09Run, via a list <-> Fin n bridge): subspace_newton_point (x_bar = x_cp + alpha u exactly, 0 <= alpha <= 1, in the box, u zero on the variables on a bound and Newton on the free ones), subspace_model_no_increase, subspace_direction_descent — under SubCtx (exact middle-matrix product and small solve, c = W^T(x_cp - x) as C08 proves), witnessed by a concrete instance; gauss_solves / gauss_unique / regular_pivots (Props/C09Solve + Proofs/Gauss, GaussBridge): the model's elimination with partial pivoting returns THE solution whenever no pivot vanishes, whatever row is picked, and no pivot vanishes when the matrix is injective; subspace_newton_point_solved / subspace_model_no_increase_solved / subspace_direction_descent_solved (under the computable pivot condition SubCtxP) and subspace_newton_point_pd (sizes, Mm M^-1 = 1, c = W^T(x_cp - x) and a positive definite model only: the reduced matrix N is then injective) carry no assumption on any solve. Numerical equality with the dense Newton solve, "
              "model decrease and descent are decided by the differential (Lean Float model vs subspacemin.py vs dense solve) over every free/active partition "
              "for n <= 4 and random inputs, and in situ: every subspace step recorded inside real runs (memory objects reused across iterations, histories "
              "rewritten by update functions, rejected pairs) against the dense truncated Newton point of the model defined by the stored pairs.",
@@ -140,7 +140,7 @@ CHECKS.update({
              "theta I (induction on the pairs over a recursively extended index type), compact_secant; invM_factorisation / bmv_is_product (Props/C10Factor: the product of the two triangular factors the code builds from sqrt(D), 1/sqrt(D), L and the Cholesky factor J IS [[-D, L^T],[L, theta S^T S]], so two exact triangular solves return M v). The floating-point computation (triangular factors in "
              "the code) is decided by correspondence: bfgsmats.py vs the "
              "Lean Float compact model vs an independent dense recursion on random histories with rejected pairs, full memory, maxcor 1..12, and forced "
-             "rebuilds after the stored gradients were rewritten (the update_fun_def path of main.py), also with a rejected candidate.",
+             "rebuilds after the stored gradients were rewritten (the update_fun_def path of main.py), also with a rejected candidate; the product with the middle matrix through the code's triangular factors (bmv) is compared with the model's elimination (whose list form — the one the theorems are about — and array form must agree bit for bit), and the share of explored matrices whose pivots do not vanish is reported.",
         note=KERNEL_NOTE, technique="Lean 4 proof (list bookkeeping; BFGS update SPD/secant and compact = dense recursion by Mathlib matrix algebra, induction on the pair list) + history differential (implementation vs compact model vs dense recursion)",
         design_ref="DESIGN.md §4 C10"),
     "C11": dict(
